@@ -1,6 +1,7 @@
 import MuscleModel.Conc.ProofsStep
 import MuscleModel.Conc.ProofsCtl
-import MuscleModel.Conc.ProofsLive
+import MuscleModel.Conc.ProofsLiveInv
+import MuscleModel.Conc.ProofsCounts
 
 /-!
 # C18 — The reader/writer mutex excludes correctly and never strands a compliant thread
@@ -52,22 +53,27 @@ theorem table_consistent {prefW progs c} (h : Reachable prefW progs c) :
     c.mx.exec.Nodup ∧ ∀ t, t ∈ c.mx.exec ↔ c.mx.ro t + c.mx.rw t > 0 :=
   ⟨(reach_mxInv (init_mxInv prefW progs) h).nodup, (reach_mxInv (init_mxInv prefW progs) h).mem⟩
 
-/- FULL STATEMENT (not yet proved; needs an invariant relating the ghost counters `hr`/`hw` and the stages of the
-   upgrade path to the table counts):
+/-- **Each release undoes exactly one acquire; recursion and upgrade keep exact counts.**  In every reachable
+configuration, for every thread that is not inside the upgrade path of `LockReadWriteAux` — in particular between calls
+and when finished — the table counts are exactly (successful read acquisitions − successful read releases, successful
+write acquisitions − successful write releases).  (Inside the upgrade path the counts are the intermediate ones of its
+drop / lock / re-take stages: `CountsOk` in `Conc/ProofsCounts.lean`.) -/
+theorem counts_exact {prefW progs c} (h : Reachable prefW progs c) (t : Tid) (hctx : (c.th t).ctx = []) :
+    c.mx.ro t = (c.th t).hr ∧ c.mx.rw t = (c.th t).hw :=
+  (reach_countInv prefW progs h).counts_plain t hctx
 
-   theorem counts_exact {prefW progs c} (h : Reachable prefW progs c) (t : Tid) (hctx : (c.th t).ctx = []) :
-       c.mx.ro t = (c.th t).hr ∧ c.mx.rw t = (c.th t).hw
+/-- non-vacuity of `counts_exact` through recursion and a completed upgrade: thread 0 did R, R, W (upgrade: drops two read
+locks, takes the write lock, re-takes two read locks) and now holds 2 read + 1 write, outside the upgrade path -/
+example : ∃ c, Reachable true [[.lockR .block, .lockR .block, .lockW .block], [.lockR .block, .unlockR]] c ∧
+    (c.th 0).ctx = [] ∧ (c.th 0).pc = .done ∧ c.mx.ro 0 = 2 ∧ c.mx.rw 0 = 1 ∧ (c.th 0).hr = 2 ∧ (c.th 0).hw = 1 :=
+  ⟨(machine.runSched (Cfg.init true [[.lockR .block, .lockR .block, .lockW .block], [.lockR .block, .unlockR]])
+      [.run 0, .run 0, .run 1, .run 0, .run 0, .run 0, .run 1, .run 0, .run 0, .run 0, .run 0]).1,
+   machine.reach_runSched Machine.Reach.init _, by decide, by decide, by decide, by decide, by decide, by decide⟩
 
-   i.e. for a thread that is not inside the upgrade path the table counts are exactly (successful read acquisitions −
-   successful read releases, successful write acquisitions − successful write releases).  The C++ harness checks exactly
-   this relation on the real tables after every step (direct oracle 2 in harness/rw.cpp). -/
-
-/-- **Each release undoes exactly one acquire** — PARTIAL: proved per critical section, for every state satisfying the
-safety invariant (hence every reachable one): a successful unlock takes exactly one lock of its mode from the caller
-(and one off the total for a write lock) and touches nobody else's counts; a failed unlock changes nothing; an
-acquisition that succeeds at once adds exactly one.  Missing: the summation over a whole execution (`counts_exact`
-above), in particular through the drop/re-take stages of the upgrade path. -/
-theorem counts_exact_partial {prefW progs c} (h : Reachable prefW progs c) (t : Tid) :
+/-- the per-critical-section form of exact counting, for every reachable state: a successful unlock takes exactly one
+lock of its mode from the caller (and one off the total for a write lock) and touches nobody else's counts; a failed
+unlock changes nothing; an acquisition that succeeds at once adds exactly one -/
+theorem counts_per_section {prefW progs c} (h : Reachable prefW progs c) (t : Tid) :
     ((unlockR c.mx t).2 = .ok → c.mx.ro t > 0 ∧ (unlockR c.mx t).1.ro t = c.mx.ro t - 1 ∧ (unlockR c.mx t).1.rw = c.mx.rw ∧
         (unlockR c.mx t).1.total = c.mx.total ∧ ∀ u, u ≠ t → (unlockR c.mx t).1.ro u = c.mx.ro u) ∧
     ((unlockR c.mx t).2 ≠ .ok → (unlockR c.mx t).1 = c.mx) ∧
@@ -80,17 +86,31 @@ theorem counts_exact_partial {prefW progs c} (h : Reachable prefW progs c) (t : 
   have hi := reach_mxInv (init_mxInv prefW progs) h
   ⟨unlockR_exact, unlockR_failed, unlockW_exact, fun _ => lockRStart_exact hi, fun _ => lockWStart_exact hi⟩
 
-/-- **Failed try leaves the lock state unchanged**: a plain `TryLockReadOnly()` / `TryLockReadWrite()` that returns
-`B_TIMED_OUT` changes nothing at all in the shared state. -/
+/-- **Failed try leaves the lock state unchanged**: a `TryLockReadOnly()` / `TryLockReadWrite()` that returns
+`B_TIMED_OUT` — from any state, including the read→write upgrade situation — changes nothing at all in the shared state. -/
 theorem try_unchanged {c c' : Cfg} {t : Tid} (hpc : (c.th t).pc = .rStart .try_ ∨ (c.th t).pc = .wStart .try_)
     (hctx : (c.th t).ctx = []) (h : machine.step c (.run t) = some (c', some .timedOut)) : c'.mx = c.mx :=
   try_fail_unchanged hpc hctx h
 
-/-- a plain try acquisition is a single step: it never waits -/
+/-- a try acquisition is a single step: it never waits — including `TryLockReadWrite()` issued by a read-lock holder
+(read→write upgrade), which since /repo commit d881489 fails before any read lock is dropped -/
 theorem try_returns_at_once {c : Cfg} {t : Tid} (hpc : (c.th t).pc = .rStart .try_ ∨ (c.th t).pc = .wStart .try_)
-    (hctx : (c.th t).ctx = []) (hup : (c.th t).pc = .wStart .try_ → t ∉ c.mx.exec) :
-    ∃ c' st, machine.step c (.run t) = some (c', some st) :=
-  try_single_step hpc hctx hup
+    (hctx : (c.th t).ctx = []) : ∃ c' st, machine.step c (.run t) = some (c', some st) :=
+  try_single_step hpc hctx
+
+/-- the fixed half of finding F13, as a positive statement: a `TryLockReadWrite()` by a thread that holds the lock
+read-only while other readers execute (the upgrade situation) is ONE non-blocking step that returns `B_TIMED_OUT` and
+leaves the whole shared state — in particular the caller's read locks — untouched -/
+theorem try_upgrade_never_blocks {c : Cfg} {t : Tid} (hpc : (c.th t).pc = .wStart .try_) (hctx : (c.th t).ctx = [])
+    (hin : t ∈ c.mx.exec) (hrw : c.mx.rw t = 0) (hothers : c.mx.exec.length ≠ 1) :
+    ∃ c', machine.step c (.run t) = some (c', some .timedOut) ∧ c'.mx = c.mx :=
+  try_upgrade_single_step hpc hctx hin hrw hothers
+
+/-- non-vacuity: the upgrade situation is reachable (thread 0 and thread 1 both hold read locks, thread 0 is about to try) -/
+example : ∃ c, Reachable true [[.lockR .block, .lockW .try_], [.lockR .block]] c ∧ (c.th 0).pc = .wStart .try_ ∧
+    (c.th 0).ctx = [] ∧ 0 ∈ c.mx.exec ∧ c.mx.rw 0 = 0 ∧ c.mx.exec.length ≠ 1 :=
+  ⟨(machine.runSched (Cfg.init true [[.lockR .block, .lockW .try_], [.lockR .block]]) [.run 0, .run 1]).1,
+   machine.reach_runSched Machine.Reach.init _, by decide, by decide, by decide, by decide, by decide⟩
 
 /-- **Failed timed acquisition leaves the lock state unchanged**: the step that returns `B_TIMED_OUT` from a timed wait
 removes exactly the caller's waiting entry (added when the call started to wait) and touches no count. -/
@@ -108,43 +128,28 @@ theorem waiting_tables_exact {prefW progs c} (h : Reachable prefW progs c) (t : 
     ((t ∈ c.mx.waitR ∨ t ∈ c.mx.waitW) → t ∉ c.mx.exec) :=
   (reach_ctlInv prefW progs h).waiting t
 
-/- FULL STATEMENTS (the invariance of `LiveInv` under every step is not yet proved):
+/-- **No lost wake-up.**  In every reachable configuration in which nobody executes, the threads that the hand-off rule
+favours are *signalled* — they have a pending notification or are between wake-up and re-check: the first waiting
+writer (if writers are preferred or no reader waits), respectively every waiting reader (if readers are preferred or no
+writer waits). -/
+theorem no_lost_wakeup {prefW progs c} (h : Reachable prefW progs c) (he : c.mx.exec = []) :
+    (∀ w rest, c.mx.waitW = w :: rest → (c.mx.prefW = true ∨ c.mx.waitR = []) → Signalled c w) ∧
+    (∀ r, r ∈ c.mx.waitR → (c.mx.prefW = false ∨ c.mx.waitW = []) → Signalled c r) :=
+  (reach_liveInv prefW progs h).wake he
 
-   theorem no_lost_wakeup {prefW progs c} (h : Reachable prefW progs c) (he : c.mx.exec = []) :
-       (∀ w rest, c.mx.waitW = w :: rest → (c.mx.prefW = true ∨ c.mx.waitR = []) → Signalled c w) ∧
-       (∀ r, r ∈ c.mx.waitR → (c.mx.prefW = false ∨ c.mx.waitW = []) → Signalled c r)          -- = `LiveInv c`
-
-   theorem deadlock_free {prefW progs c} (h : Reachable prefW progs c) (t : Tid) (hunf : (c.th t).pc ≠ .done)
-       (hcompliant : ∀ u, (c.th u).pc = .done → c.mx.ro u + c.mx.rw u = 0) : ∃ e c' o, machine.step c e = some (c', o)
-
-   Proof plan for the missing part: `LiveInv` is preserved because every step either leaves somebody executing, or
-   ends in `NotifySomeWaitingThreads()` on a state with nobody executing (`no_lost_wakeup_partial` then re-establishes
-   it outright), or keeps `exec = []`, does not lower any other thread's pending count and sends the acting thread back
-   to `Wait()` only when `IsOkayFor…ToExecuteNow()` failed — which, with nobody executing, means the hand-off rule
-   favours somebody else.  The correspondence run checks the consequence on the real code: no deadlock verdict unless a
-   finished thread still holds the lock (direct oracle 4), over all explored schedules. -/
-
-/-- **No lost wake-up** — PARTIAL: the hand-off step itself, for every state: after `NotifySomeWaitingThreads()` the first
-waiting writer (writers preferred, or no reader waits) resp. every waiting reader (readers preferred, or no writer waits)
-has a pending notification.  Missing: that this situation is *maintained* in every reachable configuration with nobody
-executing (`no_lost_wakeup` above). -/
-theorem no_lost_wakeup_partial (s : Mx) :
+/-- the hand-off step behind `no_lost_wakeup`, for every state: after `NotifySomeWaitingThreads()` the favoured waiters
+have a pending notification -/
+theorem handoff_notifies (s : Mx) :
     (∀ w rest, s.waitW = w :: rest → (s.prefW = true ∨ s.waitR = []) → (notifySome s).pend w > 0) ∧
     (∀ r, r ∈ s.waitR → (s.prefW = false ∨ s.waitW = []) → (notifySome s).pend r > 0) :=
   notifySome_wakes s
 
-/-- **No deadlock among threads that use only this lock** — PARTIAL: proved for every reachable configuration *in which the
-no-lost-wake-up condition `LiveInv` holds*: if some thread is unfinished and no finished thread still holds the lock
-("every holder eventually releases"), some event is enabled.  Exclusion, the table invariant and the exactness of the
-waiting tables are used at full strength (all schedules); missing: the invariance of `LiveInv` (see above). -/
-theorem deadlock_free_partial {prefW progs c} (h : Reachable prefW progs c) (hl : LiveInv c) (t : Tid)
-    (hunf : (c.th t).pc ≠ .done) (hcompliant : ∀ u, (c.th u).pc = .done → c.mx.ro u + c.mx.rw u = 0) :
+/-- **No deadlock among threads that use only this lock.**  In every reachable configuration in which some thread is
+unfinished and no finished thread still holds the lock ("every holder eventually releases"), some event is enabled. -/
+theorem deadlock_free {prefW progs c} (h : Reachable prefW progs c) (t : Tid) (hunf : (c.th t).pc ≠ .done)
+    (hcompliant : ∀ u, (c.th u).pc = .done → c.mx.ro u + c.mx.rw u = 0) :
     ∃ e c' o, machine.step c e = some (c', o) :=
-  no_deadlock (reach_mxInv (init_mxInv prefW progs) h) (reach_ctlInv prefW progs h) hl t hunf hcompliant
-
-/-- non-vacuity of the `LiveInv` hypothesis: it holds initially -/
-example (prefW : Bool) (progs : List (List Op)) : LiveInv (Cfg.init prefW progs) :=
-  ⟨fun _ => ⟨fun w rest hw => by simp [Cfg.init, Mx.init] at hw, fun r hr => by simp [Cfg.init, Mx.init] at hr⟩⟩
+  no_deadlock (reach_mxInv (init_mxInv prefW progs) h) (reach_ctlInv prefW progs h) (reach_liveInv prefW progs h) t hunf hcompliant
 
 /-- non-vacuity of the compliance hypothesis: a thread that finishes while holding does strand a writer -/
 example : ∃ c, Reachable true [[.lockR .block], [.lockW .block]] c ∧ (c.th 1).pc = .wWait .block ∧ c.mx.pend 1 = 0 ∧ (c.th 0).pc = .done :=
@@ -170,15 +175,15 @@ theorem timed_returns {c c1 : Cfg} {t : Tid} {o : Option St} (hctx : (c.th t).ct
     ∃ c2, machine.step c1 (.run t) = some (c2, some .timedOut) :=
   timeout_then_returns hctx h
 
-/-- Finding **F13** (open; the reason `timed_returns` and `try_returns_at_once` exclude the upgrade path): a
-`TryLockReadWrite()` issued by a read-lock holder can end up parked in an *untimed* `Wait()` with nothing pending,
-because the upgrade path re-takes the read locks with `LockReadOnly()`.  Reachable in the model (and reproduced on the
-real code by `corpus/C18/rw-known-F13.ops`). -/
-theorem f13_try_upgrade_blocks :
-    ∃ c, Reachable true [[.lockR .block, .lockW .try_, .unlockR], [.lockR .block, .unlockR], [.lockW .block, .unlockW]] c ∧
-      (c.th 0).cur = .lockW .try_ ∧ (c.th 0).pc = .rWait .block ∧ c.mx.pend 0 = 0 :=
-  ⟨(machine.runSched (Cfg.init true [[.lockR .block, .lockW .try_, .unlockR], [.lockR .block, .unlockR], [.lockW .block, .unlockW]])
-      [.run 0, .run 1, .run 0, .run 0, .run 2, .run 0, .run 0]).1,
+/-- Finding **F13** (open, TIMED variant; the reason `timed_returns` excludes the upgrade path): a timed `LockReadWrite()`
+issued by a read-lock holder can, after its time-out has fired, end up parked in an *untimed* `Wait()` with nothing
+pending, because the upgrade path re-takes the read locks with `LockReadOnly()`.  Reachable in the model (and reproduced
+on the real code by `corpus/C18/rw-known-F13.ops`). -/
+theorem f13_timed_upgrade_blocks :
+    ∃ c, Reachable true [[.lockR .block, .lockW .timed, .unlockR], [.lockR .block, .unlockR], [.lockW .block, .unlockW]] c ∧
+      (c.th 0).cur = .lockW .timed ∧ (c.th 0).pc = .rWait .block ∧ c.mx.pend 0 = 0 :=
+  ⟨(machine.runSched (Cfg.init true [[.lockR .block, .lockW .timed, .unlockR], [.lockR .block, .unlockR], [.lockW .block, .unlockW]])
+      [.run 0, .run 1, .run 0, .run 0, .run 2, .run 0, .timeout 0, .run 0, .run 0]).1,
    machine.reach_runSched Machine.Reach.init _, by decide, by decide, by decide⟩
 
 end Muscle.Props.C18
